@@ -718,6 +718,58 @@ Fixpoint feed {T : Type} (act : T -> action T) (eof : T -> T) (fuel : nat) (s : 
 Definition bot_feed (c : bcfg) (fuel : nat) (b : bot) (inc : list frame) := feed (bot_act c) bot_eof fuel b inc.
 Definition srv_feed (offl : list N -> list N) (c : scfg) (fuel : nat) (s : srv) (inc : list frame) :=
   feed (srv_act offl c) srv_eof fuel s inc.
+(* the outcome of a join when the peer stops after the first k frames of `transcript` (what the `cut`
+   cases of the correspondence run compare; the fuel is the bound of C19_close_bot / C19_close_server) *)
+Definition cut_outcome_bot (c : bcfg) (k : nat) (transcript : list frame) : bot :=
+  snd (bot_feed c (2 + 2 * k + 1) (bot_join_init c) (firstn k transcript)).
+
+(* Part 6: the two machines interleaved, with either side stopping at any step.
+   A side stops by an explicit event (the process ends, the transport fails) - and the server also by
+   returning from AcceptConn (`defer conn.Close()`).  The transport still delivers what was written
+   before; a read on an empty channel whose writer has stopped fails: the reader does bot_eof / srv_eof.
+   (A bot whose join returned an error does NOT close the connection it dialled: for the server only the
+   explicit stop of the bot side counts.) *)
+Inductive cev := CB | CS | CStopB | CStopS.
+Record csys := { c_x : sys bot srv; c_bstop : bool; c_sstop : bool }.
+Section Closing.
+Variable offl : list N -> list N.
+Variables (bc : bcfg) (sc : scfg).
+Definition srv_gone (y : csys) : bool :=
+  c_sstop y || match srv_act offl sc (x_s (c_x y)) with AHalt => true | _ => false end.
+Definition with_b (x : sys bot srv) (b : bot) : sys bot srv :=
+  {| x_b := b; x_s := x_s x; x_c2s := x_c2s x; x_s2c := x_s2c x; x_c2s_hist := x_c2s_hist x;
+     x_s2c_hist := x_s2c_hist x; x_bseen := x_bseen x; x_sseen := x_sseen x |}.
+Definition with_s (x : sys bot srv) (s : srv) : sys bot srv :=
+  {| x_b := x_b x; x_s := s; x_c2s := x_c2s x; x_s2c := x_s2c x; x_c2s_hist := x_c2s_hist x;
+     x_s2c_hist := x_s2c_hist x; x_bseen := x_bseen x; x_sseen := x_sseen x |}.
+Definition bot_turn (gone : bool) (x : sys bot srv) : sys bot srv :=
+  match step_b bot srv (bot_act bc) b_thr x with
+  | Some x' => x'
+  | None => match bot_act bc (x_b x) with
+            | ARecv _ => if gone then with_b x (bot_eof (x_b x)) else x     (* blocked, or the read fails *)
+            | _ => x
+            end
+  end.
+Definition srv_turn (gone : bool) (x : sys bot srv) : sys bot srv :=
+  match step_s bot srv (srv_act offl sc) s_thr x with
+  | Some x' => x'
+  | None => match srv_act offl sc (x_s x) with
+            | ARecv _ => if gone then with_s x (srv_eof (x_s x)) else x
+            | _ => x
+            end
+  end.
+Definition cstep (y : csys) (e : cev) : csys :=
+  match e with
+  | CB => if c_bstop y then y else {| c_x := bot_turn (srv_gone y) (c_x y); c_bstop := false; c_sstop := c_sstop y |}
+  | CS => if c_sstop y then y else {| c_x := srv_turn (c_bstop y) (c_x y); c_bstop := c_bstop y; c_sstop := false |}
+  | CStopB => {| c_x := c_x y; c_bstop := true; c_sstop := c_sstop y |}
+  | CStopS => {| c_x := c_x y; c_bstop := c_bstop y; c_sstop := true |}
+  end.
+Definition crun (es : list cev) (y : csys) : csys := fold_left cstep es y.
+Definition cut_outcome_srv (k : nat) (transcript : list frame) : srv :=
+  snd (srv_feed offl sc ((length (sc_registries sc) + 3) * k + 1) srv_init (firstn k transcript)).
+Definition cinit (x : sys bot srv) : csys := {| c_x := x; c_bstop := false; c_sstop := false |}.
+End Closing.
 
 (* the bot's queue-backed Conn when the connection fails (bot/client.go warpConn): the reader goroutine
    pushes what it receives, and on the first ReadPacket error records it, leaves its loop and closes
